@@ -781,10 +781,11 @@ func parseType(parser *Parser) (ttype ast.Type, err error) {
 		if ttype, err = parseType(parser); err != nil {
 			return nil, err
 		}
-		fallthrough
-	case lexer.BRACKET_R:
-		if err = advance(parser); err != nil {
-			return nil, err
+		// A missing "]" at EOF is reported by the caller's next expect.
+		if !peek(parser, lexer.EOF) {
+			if _, err = expect(parser, lexer.BRACKET_R); err != nil {
+				return nil, err
+			}
 		}
 		ttype = ast.NewList(&ast.List{
 			Type: ttype,
@@ -794,6 +795,10 @@ func parseType(parser *Parser) (ttype ast.Type, err error) {
 		if ttype, err = parseNamed(parser); err != nil {
 			return nil, err
 		}
+	case lexer.EOF:
+		// reported by the caller's next expect
+	default:
+		return nil, unexpected(parser, lexer.Token{})
 	}
 
 	// BANG must be executed
